@@ -239,6 +239,9 @@ def check(ctx):
          "lib.oal": "// 😉\nlet name = str;\n"},
     ]
     two_folders(ctx)
+    # an import qualifier that shares its name with a declaration used unqualified: two namespaces
+    corpus.append({"main.oal": 'use "defs.oal" as t;\nlet t = t.item;\nlet u = { \'first t, \'rest t.@page };\nres /things on get -> <status=200, u>;\n',
+                   "defs.oal": "let item = { 'n num };\nlet @page = { 'items [item] };\n"})
     n = 90 if ctx.thorough else 8
     wss = corpus + [lspws.gen_workspace(ctx.rng) for _ in range(n)]
     for i, files in enumerate(wss):
